@@ -183,6 +183,23 @@ def fingerprint_variant_per_version(ctx, P):
                 if st['r']['k'] == 'agg' and st['r'].get('ak') == 'adt' and (st['r'].get('adt') or '').endswith('fingerprint::Fingerprint'):
                     made.add(st['r'].get('v'))
         table[v] = sorted(made)
+    # the constructor from (version, octets) - used for issuer / recipient fingerprints read from the wire - follows the same table,
+    # version 5 included (a v5 fingerprint that becomes `Fingerprint::V6` passes the "issuer fingerprint version = signature version" rule)
+    nb = ctx.body('types::fingerprint::Fingerprint::new')
+    ntable = {}
+    if nb is not None:
+        for v in ('V2', 'V3', 'V4', 'V5', 'V6'):
+            reach = nb.reach_from([0], removed_edges=frozenset(edges_pruned_for_version(nb, v, r'^param:1$')))
+            made = set()
+            for x in reach:
+                for st in nb.blocks[x]['s']:
+                    if st['r']['k'] == 'agg' and st['r'].get('ak') == 'adt' and (st['r'].get('adt') or '').endswith('fingerprint::Fingerprint'):
+                        made.add(st['r'].get('v'))
+            ntable[v] = sorted(made)
+        nbad = {v: m for v, m in ntable.items() if m != [v]}
+        ctx.check(P + ':S13-1:fingerprint-new-variant-per-version', 'R-table', 'Fingerprint::new(version X, ..) constructs Fingerprint::X and nothing else (X = 2, 3, 4, 5, 6)',
+                  not nbad, function=nb.path, table=ntable,
+                  missing=None if not nbad else 'variant(s) constructed per requested version: %s' % nbad)
     bad = {v: m for v, m in table.items() if m != [v]}
     ctx.check(P + ':S13-1:fingerprint-variant-per-version', 'R-table', 'fingerprint() of a version X key constructs Fingerprint::X and nothing else (X = 2, 3, 4, 6)',
               not bad, function=b.path, table=table,
